@@ -29,6 +29,8 @@ type Program struct {
 	runtimeErrType types.Type
 	hostErrType    types.Type
 	hostCtxType    types.Type
+	hostHashType   types.Type
+	stubsUsed      map[string]bool
 	errorIface     *types.Interface
 
 	mu            sync.Mutex
@@ -59,14 +61,27 @@ type LoadSpec struct {
 
 // Load type-checks the repository package with the harness files overlaid and builds SSA.
 func Load(spec LoadSpec) (*Program, error) {
-	overlay := map[string][]byte{}
-	pkgAbs := filepath.Join(spec.RepoDir, spec.PkgDir)
+	files := map[string][]byte{}
 	for _, h := range spec.HarnessSrcs {
 		b, err := os.ReadFile(h)
 		if err != nil {
 			return nil, err
 		}
-		overlay[filepath.Join(pkgAbs, filepath.Base(h))] = b
+		files[filepath.Base(h)] = b
+	}
+	return loadWith(spec, files)
+}
+
+// LoadOverlay loads package dir of the repository with the given files (name -> content) overlaid.
+func LoadOverlay(repo, dir string, files map[string][]byte) (*Program, error) {
+	return loadWith(LoadSpec{RepoDir: repo, PkgDir: dir}, files)
+}
+
+func loadWith(spec LoadSpec, files map[string][]byte) (*Program, error) {
+	overlay := map[string][]byte{}
+	pkgAbs := filepath.Join(spec.RepoDir, spec.PkgDir)
+	for name, b := range files {
+		overlay[filepath.Join(pkgAbs, name)] = b
 	}
 	fset := token.NewFileSet()
 	cfg := &packages.Config{
@@ -106,11 +121,8 @@ func Load(spec LoadSpec) (*Program, error) {
 	if len(spkgs) > 0 {
 		p.main = spkgs[0]
 	}
-	for _, sp := range spkgs {
-		if sp != nil {
-			sp.Build()
-		}
-	}
+	// build every package up front: bodies must not be built lazily while workers run concurrently
+	prog.Build()
 	// synthetic types used by the engine
 	p.errorIface = types.Universe.Lookup("error").Type().Underlying().(*types.Interface)
 	mk := func(name string) types.Type {
@@ -120,6 +132,8 @@ func Load(spec LoadSpec) (*Program, error) {
 	p.runtimeErrType = mk("runtime.Error")
 	p.hostErrType = mk("symgo.hostError")
 	p.hostCtxType = mk("symgo.hostContext")
+	p.hostHashType = mk("symgo.hostHash")
+	p.stubsUsed = map[string]bool{}
 	return p, nil
 }
 
@@ -174,6 +188,9 @@ func (p *Program) implements(t types.Type, it *types.Interface) bool {
 				return false
 			}
 		}
+		return true
+	}
+	if t == p.hostHashType {
 		return true
 	}
 	if t == p.runtimeErrType {
